@@ -410,6 +410,97 @@ func connLossBehindLogout(c *vk.Ctx, role rig.Role, variant string, trial int) {
 	}
 }
 
+// reactingApplication: a send of the session (the Heartbeat that answers a TestRequest) fails on a transient store
+// fault; the session reports it (OnError) and the application reacts inside that callback by calling into the
+// session — it sends an alert, or it stops the session. The Logout flows that follow work as always.
+func reactingApplication(c *vk.Ctx, role rig.Role, variant string, idx int) {
+	desc := fmt.Sprintf("%s: a Heartbeat reply fails on a store fault, the application's OnError handler %s", role, variant)
+	replay := map[string]interface{}{"scenario": desc, "seed": c.Seed}
+	st := rig.NewFlakyStore()
+	var sess *session.Session
+	var reacted int32
+	r, err := rig.NewStepRig(rig.StepCfg{Role: role, HeartBtInt: 30, Limits: &session.IntLimits{Min: 5, Max: 60}, CloseTimeout: 2 * time.Second, Counter: st, Messages: st, SentinelBarrier: true,
+		AfterRun: func(h *simplefixgo.DefaultHandler, s *session.Session) {
+			sess = s
+			s.OnError(func(error) {
+				if !atomic.CompareAndSwapInt32(&reacted, 0, 1) {
+					return
+				}
+				if variant == "stops-the-session" {
+					_ = s.Stop()
+				} else {
+					_ = s.Send(fixgen.CreateMarketDataRequestReject("alert"))
+				}
+			})
+		}})
+	if err != nil {
+		c.Inconclusive("rig: " + err.Error())
+		return
+	}
+	defer r.Close()
+	_ = sess
+	p := rig.NewPeer()
+	if res := r.Inbound(p.Logon(30, "0")); !res.Logged {
+		c.Inconclusive("no logon: " + desc)
+		return
+	}
+	c.Eval(vk.Hash64([]byte(desc)), true)
+	if idx%2 == 0 {
+		atomic.StoreInt32(&st.FailNextOutgoingNumber, 1)
+	} else {
+		atomic.StoreInt32(&st.FailNextSave, 1)
+	}
+	t0 := time.Now()
+	res := r.Inbound(p.TestRequest("fails"))
+	stuck := func(what string) {
+		if time.Duration(atomic.LoadInt64(&maxJitter)) > 100*time.Millisecond {
+			c.Inconclusive("watchdog: " + desc)
+			return
+		}
+		c.Violate("C15/handler-loop-stuck-after-a-reported-send-error/"+variant+"/"+role.String(), fmt.Sprintf("%s: %v after %s was handed to the session the handler loop had not finished serving it: no Logout is sent or acknowledged any more", desc, time.Since(t0).Round(time.Second), what), replay)
+	}
+	if res.TimedOut {
+		stuck("the TestRequest")
+		return
+	}
+	if atomic.LoadInt32(&reacted) != 1 {
+		c.Count("reacting_application_scenarios_without_a_reported_error", 1)
+		return
+	}
+	c.Count("reported_send_errors_the_application_reacted_to", 1)
+	if variant == "stops-the-session" {
+		// Stop was called inside the callback: its Logout is among the messages of that step, and the peer's answer ends it
+		if count(res.Outs, "5") != 1 {
+			c.Violate("C15/stop-did-not-send-one-logout/called-from-the-error-callback/"+role.String(), desc+": the step emitted "+types(res.Outs)+", want one Logout", replay)
+			return
+		}
+		done := r.S.Context().Done()
+		t0 = time.Now()
+		if res := r.Inbound(p.Logout()); res.TimedOut {
+			stuck("the peer's Logout answer")
+			return
+		}
+		select {
+		case <-done:
+		case <-time.After(time.Second):
+			c.Violate("C15/stop-not-ended-by-answer/called-from-the-error-callback/"+role.String(), desc+": 1 s after the peer's answer the session's context is not cancelled", replay)
+		}
+		return
+	}
+	t0 = time.Now()
+	res = r.Inbound(p.Logout())
+	if res.TimedOut {
+		stuck("the peer's Logout")
+		return
+	}
+	if count(res.Outs, "5") != 1 {
+		c.Violate("C15/peer-logout-not-acknowledged-once/after-a-reported-send-error/"+role.String(), desc+": answered with "+types(res.Outs)+", want exactly one Logout", replay)
+	}
+	if res.Logged {
+		c.Violate("C15/still-logged-after-peer-logout/after-a-reported-send-error/"+role.String(), desc+": IsLogged is still true", replay)
+	}
+}
+
 // flakyCounter is the bundled store whose next SetSeqNum for the incoming side fails once when armed (a transient
 // fault of the application's counter store).
 type flakyCounter struct {
@@ -543,6 +634,15 @@ func main() {
 			go func(i int, role rig.Role, variant string) {
 				defer wg.Done()
 				storeFaultAtLogout(c, role, variant, i)
+			}(i, role, variant)
+		}
+	}
+	for i, variant := range []string{"sends-an-alert", "stops-the-session", "sends-an-alert", "stops-the-session"} {
+		for _, role := range []rig.Role{rig.Acceptor, rig.Initiator} {
+			wg.Add(1)
+			go func(i int, role rig.Role, variant string) {
+				defer wg.Done()
+				reactingApplication(c, role, variant, i/2+int(role))
 			}(i, role, variant)
 		}
 	}
